@@ -3,16 +3,22 @@ import YaegiVerif.Model.VarInit
 import YaegiVerif.Spec.GoInitOrder
 import YaegiVerif.Generated.C15
 /- Line-protocol front end for C15 (glue, not a proof obligation).
-   pkg VARS FUNCS INITS MAIN
-     VARS  = ((NAMES LATE INIT…) …)  NAMES = (a b …)  LATE = 1|0 (callee declared later)  INIT = (label IDS)
-     IDS   = ((name 1|0) …)        1 = denotes the package-level object, 0 = a local / field key of that name
-     FUNCS = ((name IDS) …)        INITS = (label …)   MAIN = (label) | ()
-   answer: class=… deps=… yorder=… ylog=… ilog=… gdeps=… gorder=… glog=…
+   pkg FILES MAIN AFTER
+     FILES = ((DECL …) …)            the files of the package in the order they are read, declarations in source order
+     DECL  = (var NAMES LATE INIT…)  NAMES = (a b …)  LATE = 1|0 (callee declared later)  INIT = (label IDS)
+           | (func NAME RECV RTYPE TPARAMS PARAMS RESULTS LABEL IDS LOCALS)   RECV = n | v | p (none, value, pointer)
+           | (type NAME (field …))
+     IDS   = ((name 1|0) …)          1 = denotes the package-level object, 0 = a local / field key of that name
+     MAIN  = (label) | ()            AFTER = (label …)  what main's own calls log after that
+   answer: class=… deps=… yorder=… ylog=… ilog=… regs=… syms=… gdeps=… gorder=… glog=…
      deps/gdeps  i:d,d;i:d…        (collected dependencies per specification / per unit)
      yorder/gorder  i,i,i | loop   ylog/ilog/glog  label,label,…[,!error] | -
+     regs  key@pos,…[,main]        the init nodes of the package given as one file (pos = ordinal among the function declarations)
+     syms  name,…                  sorted: the function symbols gta declares
    `ylog` = Eval of one file (CompileAST + Execute), `ilog` = importSrc of a directory.
-   prog DIR (SUB…) (mainimport…) VARS FUNCS INITS MAIN     SUB = (path (import…) VARS FUNCS INITS)
-   answer: class=(first package, imported ones first, that is not in-domain) yseq= ylog= gseq= glog=   (seq = packages in initialisation order) -/
+   prog DIR (SUB…) (mainimport…) FILES MAIN AFTER     SUB = (path (import…) FILES)
+   answer: class=(first package, imported ones first, that is not in-domain) yseq= ylog= gseq= glog=   (seq = packages in initialisation order)
+   Everything yaegi-side is computed with the facts regenerated from the source (Generated.C15). -/
 namespace YaegiVerif.Driver.C15
 open YaegiVerif YaegiVerif.VarInit YaegiVerif.Spec.InitOrder
 
@@ -40,17 +46,45 @@ def parseVar (s : Sexp) : Option VarSpec :=
     some ⟨ns, is, lt⟩
   | _ => none
 
-def parseFunc (s : Sexp) : Option Func :=
+def parseRecv (s : Sexp) : Option Recv :=
   match s with
-  | .list [.atom n, ids] => do let i ← parseIds ids; some ⟨n, i⟩
+  | .atom "n" => some .none
+  | .atom "v" => some .value
+  | .atom "p" => some .pointer
   | _ => none
 
-def parsePkg (vars funcs inits main : Sexp) : Option Pkg := do
-  let vs ← (← vars.list?).mapM parseVar
-  let fs ← (← funcs.list?).mapM parseFunc
-  let is ← inits.atoms?
+def parseDecl (s : Sexp) : Option Decl :=
+  match s with
+  | .list (.atom "var" :: rest) => (parseVar (.list rest)).map Decl.var
+  | .list [.atom "func", .atom name, recv, .atom rtype, tp, pa, re, .atom label, ids, locals] => do
+    let r ← parseRecv recv
+    let t ← tp.nat?
+    let p ← pa.nat?
+    let q ← re.nat?
+    let i ← parseIds ids
+    let l ← locals.atoms?
+    some (.func { name := name, recv := r, recvType := rtype, tparams := t, params := p, results := q,
+                  label := label, ids := i, locals := l })
+  | .list [.atom "type", .atom name, fields] => do
+    let fs ← fields.atoms?
+    some (.type name fs)
+  | _ => none
+
+/-- number the function declarations of a file -/
+def numberFuncs : Nat → List Decl → List Decl
+  | _, [] => []
+  | k, .func f :: ds => .func { f with pos := k } :: numberFuncs (k + 1) ds
+  | k, d :: ds => d :: numberFuncs k ds
+
+def parseFiles (s : Sexp) : Option (List (List Decl)) := do
+  let fs ← s.list?
+  fs.mapM (fun f => do let ds ← (← f.list?).mapM parseDecl; some (numberFuncs 0 ds))
+
+def parseSrc (files main after : Sexp) : Option SrcPkg := do
+  let fs ← parseFiles files
   let m ← main.atoms?
-  some ⟨vs, fs, is, m.head?⟩
+  let a ← after.atoms?
+  some ⟨fs, m.head?, a⟩
 
 def commaNat (l : List Nat) : String := ",".intercalate (l.map toString)
 
@@ -68,39 +102,48 @@ def showTrace (t : Trace) : String :=
   let l := t.events ++ (if t.err then ["!error"] else [])
   if l.isEmpty then "-" else ",".intercalate l
 
-/-- SUB = (path (imports…) VARS FUNCS INITS) -/
-def parseSub (s : Sexp) : Option SubPkg :=
+/-- SUB = (path (imports…) FILES) -/
+def parseSub (s : Sexp) : Option (String × List String × SrcPkg) :=
   match s with
-  | .list [.atom path, imps, vars, funcs, inits] => do
+  | .list [.atom path, imps, files] => do
     let is ← imps.atoms?
-    let p ← parsePkg vars funcs inits (.list [])
-    some ⟨path, is, p⟩
+    let p ← parseSrc files (.list []) (.list [])
+    some (path, is, p)
   | _ => none
 
 def showSeq (l : List String) : String := if l.isEmpty then "-" else ",".intercalate l
 
+def showRegs (f : ExecFacts) (i : InitFacts) (s : SrcPkg) : String :=
+  let rs := (pkgInits i s.files).map (fun d => s!"{d.key}@{d.pos}")
+  showSeq (rs ++ (if f.compile.contains "main-last" && s.main.isSome then ["main"] else []))
+
 def handle (args : List Sexp) : String :=
   match args with
-  | [.atom "pkg", vars, funcs, inits, main] =>
-    (match parsePkg vars funcs inits main with
-     | some p =>
+  | [.atom "pkg", files, main, after] =>
+    (match parseSrc files main after with
+     | some s =>
        let f := Generated.C15.execFacts
+       let i := Generated.C15.initFacts
+       let p := s.toPkg i
        let gy := collectDepsY p
-       let gg := goDeps p
+       let gg := goDeps (toPkgGo s)
+       let tail := s!"ylog={showTrace (runSrcY f i s)} ilog={showTrace (runSrcImportY f i s)} regs={showRegs f i s} syms={showSeq (sortPaths (declaredFuncs i s.decls).eraseDups)} gdeps={showDeps gg} gorder={showRes (orderGo gg)} glog={showTrace (runSrcGo s)}"
        if gtaRejects p then
-         s!"class={classify p} deps=err yorder=err ylog={showTrace (runY f p)} ilog={showTrace (runImportY f p)} gdeps={showDeps gg} gorder={showRes (orderGo gg)} glog={showTrace (runGo p)}"
+         s!"class={classifySrc s} deps=err yorder=err {tail}"
        else
-       s!"class={classify p} deps={showDeps gy} yorder={showRes (orderY gy)} ylog={showTrace (runY f p)} ilog={showTrace (runImportY f p)} gdeps={showDeps gg} gorder={showRes (orderGo gg)} glog={showTrace (runGo p)}"
+         s!"class={classifySrc s} deps={showDeps gy} yorder={showRes (orderY gy)} {tail}"
      | none => "bad-op")
-  | [.atom "prog", dir, .list subs, mimps, vars, funcs, inits, main] =>
-    (match dir.bool?, subs.mapM parseSub, mimps.atoms?, parsePkg vars funcs inits main with
-     | some d, some ss, some mi, some p =>
+  | [.atom "prog", dir, .list subs, mimps, files, main, after] =>
+    (match dir.bool?, subs.mapM parseSub, mimps.atoms?, parseSrc files main after with
+     | some d, some ss, some mi, some s =>
        let f := Generated.C15.execFacts
-       let pr : Prog := ⟨ss, mi, p, d⟩
-       let y := progY f pr
-       let g := progGo pr
-       let cls := ((ss.map (fun s => classify s.pkg)) ++ [classify p]).filter (· != "in-domain")
-       s!"class={cls.head?.getD "in-domain"} yseq={showSeq y.seq} ylog={showTrace ⟨y.events, y.err⟩} gseq={showSeq g.1} glog={showTrace g.2}"
+       let i := Generated.C15.initFacts
+       let prY : Prog := ⟨ss.map (fun x => ⟨x.1, x.2.1, x.2.2.toPkg i⟩), mi, s.toPkg i, d⟩
+       let prG : Prog := ⟨ss.map (fun x => ⟨x.1, x.2.1, toPkgGo x.2.2⟩), mi, toPkgGo s, d⟩
+       let y := progY f prY
+       let g := progGo prG
+       let cls := ((ss.map (fun x => classifySrc x.2.2)) ++ [classifySrc s]).filter (· != "in-domain")
+       s!"class={cls.head?.getD "in-domain"} yseq={showSeq y.seq} ylog={showTrace ((Trace.mk y.events y.err).andThen s.after)} gseq={showSeq g.1} glog={showTrace (g.2.andThen s.after)}"
      | _, _, _, _ => "bad-op")
   | _ => "bad-op"
 
